@@ -19,6 +19,7 @@ import (
 	"github.com/goghcrow/yae/types"
 	"github.com/goghcrow/yae/util"
 	"github.com/goghcrow/yae/val"
+	"github.com/goghcrow/yae/verifhook"
 	"github.com/goghcrow/yae/vm"
 )
 
@@ -101,9 +102,11 @@ func NewExpr() *Expr {
 }
 
 func (e *Expr) makeSureInit() {
+	verifhook.Touch(e, false, "Expr.makeSureInit")
 	if e.init {
 		return
 	}
+	verifhook.Touch(e, true, "Expr.makeSureInit")
 	e.initTrans()
 	if e.useBuiltIn {
 		e.initOps()
@@ -210,6 +213,8 @@ func (e *Expr) CompileExpr(terms ast.Expr, env0 *types.Env) compiler.Closure {
 	}
 	e.logf("transed: %s\n", transed)
 
+	verifhook.Touch(e.typeCheck, false, "Expr.CompileExpr")
+	verifhook.Touch(e.runtime, false, "Expr.CompileExpr")
 	checkEnv := env0.Inherit(e.typeCheck)
 	infered := types.Check(transed, checkEnv)
 	e.logf("type: %s\n", infered)
